@@ -81,6 +81,11 @@ class FakeMarlin:
                 self.busy -= 1
 
     def _reply(self, *lines):
+        if FakeMarlin.cfg.get("error_lines") and len(lines) == 2 and self.logging:
+            # real Marlin announces the fault before asking for the line again
+            lines = ("Error:checksum mismatch, Last Line: %d" % (self.expected - 1),) + tuple(lines)
+            self.rx.put((lines[0] + "\n").encode())
+            lines = lines[1:]
         for k, l in enumerate(lines):
             if k:
                 time.sleep(FakeMarlin.cfg["gap"])
@@ -193,7 +198,7 @@ def run_job(lines, cfg, limit=25.0):
     finished = not p.printing
     if not finished and not stalled:
         finished = None           # still progressing at the time limit: inconclusive
-    drained = wait_idle(fw, quiet=0.25, limit=90.0)
+    drained = wait_idle(fw, quiet=0.25, limit=25.0)
     resendfrom = p.resendfrom
     with fw.lock:
         fw.logging = False
@@ -267,7 +272,9 @@ def classify(cmds, accepted, cfg, events):
         # model afterwards: the whole trace must be a run of model/Sender.v, whose completeness is refuted the same way.
         last_tx = max((i for i, ev in enumerate(events) if ev[0] == "tx" and "M110" not in ev[1]), default=-1)
         late = [ev for ev in events[last_tx + 1:] if ev[0] == "rx" and ev[1].startswith("Resend") and int(ev[1].split(":")[1]) == len(accepted)]
-        if late:
+        # ... and the print thread really had reached the end of its queue: it then transmits the trailing M110 N-1
+        ended = any(ev[0] == "tx" and "M110" in ev[1] for ev in events[last_tx + 1:])
+        if late and ended:
             return ("the print thread reached the end of its queue on a surplus ok (every rejected transmission is answered by "
                     "'Resend' AND 'ok') before the firmware's 'Resend: %d' was read: the tail %r is never accepted"
                     % (len(accepted), cmds[len(accepted):]), "tail-resend-after-end-of-queue?")
@@ -308,8 +315,9 @@ def g_events(events, ids):
             t = ev[1]
             if t == "ok":
                 out.append("ERx ROk")
-            else:
+            elif t.startswith("Resend"):
                 out.append("ERx (RResend %s)" % g_Z(int(t.split(":")[1])))
+            # anything else ("Error:..." announcements) is only logged by the listener: not an event of the model
     return g_list(out)
 
 
@@ -325,6 +333,7 @@ def main():
     scen.append(("corpus-tail", base9, dict(boot=0, corrupt={4}, corrupt_first_of={8}, react=lambda i: 0.002, gap=0.25)))
     scen.append(("corpus-clean", base9, dict(boot=1, corrupt=set(), react=lambda i: 0.004, gap=0.0)))
     scen.append(("corpus-repeat", base9 + ["G1 X%d" % i for i in range(20, 28)], dict(boot=0, corrupt={5, 6}, react=lambda i: 0.002, gap=0.0)))
+    scen.append(("corpus-marlin-error-line", base9 + ["G1 X%d" % i for i in range(30, 36)], dict(boot=0, corrupt={6}, react=lambda i: 0.002, gap=0.0, error_lines=True)))
     scen.append(("corpus-repeat3", base9 + ["G1 X%d" % i for i in range(20, 28)], dict(boot=1, corrupt={7, 8, 9}, react=lambda i: 0.003, gap=0.0)))
     for _ in range(n):
         lines = gen_job(run.rng, run.thorough)
@@ -347,7 +356,8 @@ def main():
             import random as _r
             return lat * (1 + (_r.Random(seed + i).random() * 2 if jitter else 0))
         scen.append(("random", lines, dict(boot=run.rng.choice([0, 0, 1]), corrupt=corrupt, react=react,
-                                           gap=run.rng.choice([0.0, 0.0, 0.003, 0.02]))))
+                                           gap=(run.rng.choice([0.0, 0.0, 0.003, 0.02]) if len(corrupt) <= 1 else run.rng.choice([0.0, 0.0, 0.003])),
+                                           error_lines=run.rng.random() < 0.4)))
     found = False
     coq = []
     meta = []
